@@ -10,7 +10,7 @@ mkdir -p bin evidence replays
 W=$(mktemp -d /dev/shm/verif.setup.XXXXXX 2>/dev/null || mktemp -d)
 trap 'rm -rf "$W"' EXIT
 python3 tools/mkoverlay.py "$VERIF_DIR/src" /repo "$W/overlay.json" || exit 1
-(cd /repo && go build -o "$W/ferret" . && go build -overlay "$W/overlay.json" -o "$W/vcheck" ./verifh/check) || exit 1
+(cd /repo && go build -o "$W/ferret" . && go build -tags verif -overlay "$W/overlay.json" -o "$W/vcheck" ./verifh/check) || exit 1
 if [ -d tools/rewriter ]; then
   (cd tools/rewriter && GOFLAGS=-mod=mod go build -o "$VERIF_DIR/bin/rewriter" .) || exit 1
 fi
